@@ -26,6 +26,11 @@ def cases(tier, seed, PROP):
     if PROP in ('C07', 'C09'):
         for k in range(150 if tier == 'quick' else 3000):
             yield {'stratum': 'graph', 'index': k, 'kind': 'graph'}
+    if PROP == 'C04':
+        # text the writer may or may not accept (non-ASCII in identifier / units / text positions): IF a file is written,
+        # every record in it must still decode
+        for k in range(30 if tier == 'quick' else 300):
+            yield {'stratum': 'non-ascii-if-accepted', 'index': k, 'kind': 'nonascii'}
     if PROP == 'C05':
         # "at creation or later": values re-assigned after a first write, incl. values of another kind (text <-> number <->
         # reference <-> date-time) -- the second file must carry what is assigned now
@@ -50,6 +55,24 @@ def build_spec(case, PROP, r):
     k = case['kind']
     if k == 'random':
         return metagen.meta_spec(r, avoid=avoid)
+    if k == 'nonascii':
+        sp = metagen.meta_spec(r, avoid=avoid, n_objects=r.choice([2, 5]), later_p=0.0)
+        where = r.choice(['units', 'channel-units', 'name', 'ident-value', 'text', 'set-name'])
+        txt = r.choice(['°C', 'µs', 'Åsgard', 'naïve', 'Ω', 'é'])
+        if where == 'units':
+            sp['ops'].append({'op': 'equipment', 'name': 'EQ-NA', 'attrs': {'height': {'$setup': {'value': 1.5, 'units': txt}, 'route': 'dict'}}})
+        elif where == 'channel-units':
+            ch = next(o for o in sp['ops'] if o['op'] == 'channel')
+            ch['attrs']['units'] = txt
+        elif where == 'name':
+            sp['ops'].append({'op': 'zone', 'name': 'Z-' + txt, 'attrs': {'description': 'plain'}})
+        elif where == 'ident-value':
+            sp['ops'].append({'op': 'no_format', 'name': 'NF-NA', 'attrs': {'consumer_name': txt}})
+        elif where == 'text':
+            sp['ops'].append({'op': 'comment', 'name': 'CM-NA', 'attrs': {'text': ['ascii', txt]}})
+        else:
+            sp['ops'].append({'op': 'zone', 'name': 'Z-NA', 'set_name': 'SET-' + txt, 'attrs': {}})
+        return sp
     if k == 'rewrite':
         from vf.checks import c14
         if PROP == 'C09':
